@@ -566,7 +566,18 @@ func (n *node) RouteLinkPID(pid gen.PID, target gen.PID) error {
 		if _, exist := n.processes.Load(target); exist == false {
 			return gen.ErrProcessUnknown
 		}
-		return n.targetManager.AddLink(pid, target)
+		if err := n.targetManager.AddLink(pid, target); err != nil {
+			return err
+		}
+		// the target could have been removed in between (its termination
+		// might not have seen this relation). check it once again
+		if _, exist := n.processes.Load(target); exist == false {
+			if err := n.targetManager.RemoveLink(pid, target); err == nil {
+				return gen.ErrProcessUnknown
+			}
+			// has been handled by the termination. the exit signal is on its way
+		}
+		return nil
 	}
 
 	// remote target
@@ -626,7 +637,18 @@ func (n *node) RouteLinkProcessID(pid gen.PID, target gen.ProcessID) error {
 		if _, exist := n.names.Load(target.Name); exist == false {
 			return gen.ErrProcessUnknown
 		}
-		return n.targetManager.AddLink(pid, target)
+		if err := n.targetManager.AddLink(pid, target); err != nil {
+			return err
+		}
+		// the target could have been removed in between (its termination
+		// might not have seen this relation). check it once again
+		if _, exist := n.names.Load(target.Name); exist == false {
+			if err := n.targetManager.RemoveLink(pid, target); err == nil {
+				return gen.ErrProcessUnknown
+			}
+			// has been handled by the termination. the exit signal is on its way
+		}
+		return nil
 	}
 
 	// remote target
@@ -683,7 +705,18 @@ func (n *node) RouteLinkAlias(pid gen.PID, target gen.Alias) error {
 		if _, exist := n.aliases.Load(target); exist == false {
 			return gen.ErrAliasUnknown
 		}
-		return n.targetManager.AddLink(pid, target)
+		if err := n.targetManager.AddLink(pid, target); err != nil {
+			return err
+		}
+		// the target could have been removed in between (its termination
+		// might not have seen this relation). check it once again
+		if _, exist := n.aliases.Load(target); exist == false {
+			if err := n.targetManager.RemoveLink(pid, target); err == nil {
+				return gen.ErrAliasUnknown
+			}
+			// has been handled by the termination. the exit signal is on its way
+		}
+		return nil
 	}
 
 	// remote target
@@ -750,6 +783,15 @@ func (n *node) RouteLinkEvent(pid gen.PID, target gen.Event) ([]gen.MessageEvent
 		event := value.(*eventOwner)
 		if err := n.targetManager.AddLink(pid, target); err != nil {
 			return nil, err
+		}
+		// the target could have been removed in between (its termination
+		// might not have seen this relation). check it once again
+		if _, exist := n.events.Load(target); exist == false {
+			if err := n.targetManager.RemoveLink(pid, target); err == nil {
+				return nil, gen.ErrEventUnknown
+			}
+			// has been handled by the termination. the exit signal is on its way
+			return nil, nil
 		}
 
 		if event.last != nil {
@@ -865,7 +907,18 @@ func (n *node) RouteMonitorPID(pid gen.PID, target gen.PID) error {
 				return gen.ErrProcessTerminated
 			}
 		}
-		return n.targetManager.AddMonitor(pid, target)
+		if err := n.targetManager.AddMonitor(pid, target); err != nil {
+			return err
+		}
+		// the target could have been removed in between (its termination
+		// might not have seen this relation). check it once again
+		if _, exist := n.processes.Load(target); exist == false {
+			if err := n.targetManager.RemoveMonitor(pid, target); err == nil {
+				return gen.ErrProcessUnknown
+			}
+			// has been handled by the termination. the down message is on its way
+		}
+		return nil
 	}
 
 	// remote target
@@ -928,7 +981,18 @@ func (n *node) RouteMonitorProcessID(pid gen.PID, target gen.ProcessID) error {
 				return gen.ErrProcessTerminated
 			}
 		}
-		return n.targetManager.AddMonitor(pid, target)
+		if err := n.targetManager.AddMonitor(pid, target); err != nil {
+			return err
+		}
+		// the target could have been removed in between (its termination
+		// might not have seen this relation). check it once again
+		if _, exist := n.names.Load(target.Name); exist == false {
+			if err := n.targetManager.RemoveMonitor(pid, target); err == nil {
+				return gen.ErrProcessUnknown
+			}
+			// has been handled by the termination. the down message is on its way
+		}
+		return nil
 	}
 
 	// remote target
@@ -987,7 +1051,18 @@ func (n *node) RouteMonitorAlias(pid gen.PID, target gen.Alias) error {
 		if _, exist := n.aliases.Load(target); exist == false {
 			return gen.ErrAliasUnknown
 		}
-		return n.targetManager.AddMonitor(pid, target)
+		if err := n.targetManager.AddMonitor(pid, target); err != nil {
+			return err
+		}
+		// the target could have been removed in between (its termination
+		// might not have seen this relation). check it once again
+		if _, exist := n.aliases.Load(target); exist == false {
+			if err := n.targetManager.RemoveMonitor(pid, target); err == nil {
+				return gen.ErrAliasUnknown
+			}
+			// has been handled by the termination. the down message is on its way
+		}
+		return nil
 	}
 
 	// remote target
@@ -1053,6 +1128,15 @@ func (n *node) RouteMonitorEvent(pid gen.PID, target gen.Event) ([]gen.MessageEv
 		event := value.(*eventOwner)
 		if err := n.targetManager.AddMonitor(pid, target); err != nil {
 			return nil, err
+		}
+		// the target could have been removed in between (its termination
+		// might not have seen this relation). check it once again
+		if _, exist := n.events.Load(target); exist == false {
+			if err := n.targetManager.RemoveMonitor(pid, target); err == nil {
+				return nil, gen.ErrEventUnknown
+			}
+			// has been handled by the termination. the down message is on its way
+			return nil, nil
 		}
 
 		if event.last != nil {
